@@ -279,6 +279,58 @@ int main(int argc, char **argv) {
       rep.count("values_checked", static_cast<int64_t>(run.decoded.size()) * tg.nc);
       rep.held(vf::HashBytes(run.bytes.data(), run.bytes.size()), !run.decoded.empty());
       if (r.below(300) == 0) rep.sample("{\"case\":\"" + vf::JsonEscape(desc) + "\",\"worst_excess_A\":" + std::to_string(worst) + "}");
+      // ---- untagged point cloud ---------------------------------------------------------
+      // The tag attribute above shares the kd-tree with the target and so hides whatever depends on the largest
+      // value in the tree (bit length of the tree, level ordering). Here the cloud holds the target alone; without
+      // a tag the points cannot be matched, but each component is quantized independently and monotonically, so
+      // the sorted decoded values of a component must pair up with its sorted originals within the same bound.
+      auto untagged = [&]() -> bool {  // true: a violation was reported
+        Built u;
+        u.g.is_mesh = false; u.g.family = "points-untagged"; u.g.npoints = topo.nverts; u.g.pos_att = 0;
+        vf::Attr a;
+        a.type = tg.nc == 3 ? GeometryAttribute::POSITION : GeometryAttribute::GENERIC; a.dt = DT_FLOAT32; a.nc = tg.nc; a.unique_id = 7; a.elem = 0; a.nvals = topo.nverts;
+        a.data.resize(a.nvals * a.stride());
+        memcpy(a.data.data(), tg.vals.data(), tg.vals.size() * 4);
+        u.g.atts.push_back(a);
+        u.target_att = 0; u.tag_att = -1;
+        vf::EncOpts uo = o;
+        uo.qbits.assign(1, tg.bits); uo.pred.assign(1, -100);
+        uo.explicit_q.assign(1, vf::EncOpts::Explicit());
+        if (tg.explicit_q) { uo.explicit_q[0].bits = tg.bits; uo.explicit_q[0].origin = tg.origin; uo.explicit_q[0].range = tg.range; }
+        uo.method = r.below(4) ? 1 : -1;  // mostly kd-tree
+        std::unique_ptr<PointCloud> upc = vf::ToPointCloud(u.g);
+        vf::EncResult uer = vf::Encode(u.g, *upc, nullptr, uo);
+        if (!uer.status.ok()) { rep.count("untagged_encoder_refused"); return false; }
+        const int umethod = static_cast<uint8_t>(uer.bytes[8]);
+        const std::string ucfg = umethod == POINT_CLOUD_KD_TREE_ENCODING ? "kd-tree" : "pc-sequential";
+        std::vector<Reporter::Artifact> uarts = {{"values.f32", std::string(reinterpret_cast<const char *>(tg.vals.data()), tg.vals.size() * 4)}, {"stream.drc", uer.bytes}, {"case.txt", desc + " untagged " + uo.Describe()}};
+        vf::DecResult udr = vf::Decode(uer.bytes.data(), uer.bytes.size());
+        if (!udr.status.ok()) { rep.violation("decode-refuses-own-stream/" + ucfg + "/untagged", desc + " :: " + udr.status.error_msg(), uarts); return true; }
+        const PointAttribute *ua = udr.pc->GetAttributeByUniqueId(7);
+        if (!ua || ua->data_type() != DT_FLOAT32 || ua->num_components() != tg.nc || udr.pc->num_points() != topo.nverts) { rep.violation("decoded-attribute-missing-or-retyped/" + ucfg + "/untagged", desc, uarts); return true; }
+        std::vector<std::vector<double>> xs(tg.nc), ys(tg.nc);
+        std::vector<float> v(tg.nc);
+        for (uint32_t pnt = 0; pnt < udr.pc->num_points(); ++pnt) {
+          ua->GetMappedValue(PointIndex(pnt), v.data());
+          for (int c = 0; c < tg.nc; ++c) { ys[c].push_back(v[c]); xs[c].push_back(tg.vals[pnt * tg.nc + c]); }
+        }
+        for (int c = 0; c < tg.nc; ++c) {
+          std::sort(xs[c].begin(), xs[c].end()); std::sort(ys[c].begin(), ys[c].end());
+          for (size_t i = 0; i < xs[c].size(); ++i) {
+            const double err = std::fabs(ys[c][i] - xs[c][i]);
+            if (!(err <= bd.step / 2 + bd.A)) {
+              char m[300];
+              snprintf(m, sizeof m, " untagged comp=%d rank=%zu x=%.9g y=%.9g err=%.9g step/2=%.9g A=%.9g", c, i, xs[c][i], ys[c][i], err, bd.step / 2, bd.A);
+              rep.violation("half-step-bound-exceeded/" + std::string(tg.explicit_q ? "explicit" : "auto") + "/" + ucfg + "/untagged-marginals", desc + m, uarts);
+              return true;
+            }
+          }
+        }
+        rep.count("untagged/" + ucfg);
+        rep.count("untagged_bits/" + std::to_string(tg.bits));
+        return false;
+      };
+      if (point_cloud && r.below(2) == 0 && untagged()) return;
       // NaN / Inf must make the encoder refuse (not part of the bound).
       if (r.below(8) == 0 && !tg.explicit_q) {
         Built bad = b;
